@@ -25,8 +25,10 @@ RULE = ('kernel/exhaustive: every free/blocked layout (blocked = barrier value o
         '_find_nearest_pixel; api: a_star_search on sampled small layouts and random mazes <= 9x9 with forced detours (walls with '
         'one gap), snap on/off, ascending/descending coordinates with steps 1, 0.1, 0.25, 1/3, 0.5, 2, 30 and offsets, points on '
         'cell centres, off-centre, exactly between centres and within half a cell outside the first/last centre, with and without '
-        'a res attribute, float64 and int64 rasters; pixel: _get_pixel_id alone on the same coordinate families; a sample of detour cases is '
-        'first run in a child process with a timeout so that a non-terminating search loop is reported as a failing input. A case is non-trivial when it has >= 1 '
+        'a res attribute, float64 and int64 rasters; pixel: _get_pixel_id alone on the same coordinate families; '
+        'barrier lists of 0-4 values in every order (ascending, descending, shuffled, with duplicates), each value present on the '
+        'surface; far-island snapping: 4x4 ... 6x6 rasters whose only crossable cells sit in one corner, the end point in the opposite '
+        'corner (kernel-level _find_nearest_pixel and the public API); a sample of detour cases is first run in a child process with a timeout so that a non-terminating search loop is reported as a failing input. A case is non-trivial when it has >= 1 '
         'crossable cell; cases are distinct by their JSON encoding.')
 TRUSTED = [
     'the search state (is_open, is_closed, d_from_start, cost, parents) is modelled as pointwise-updated total functions on cells, '
@@ -567,18 +569,50 @@ def layouts(h, w):
         yield [list(bits[r * w:(r + 1) * w]) for r in range(h)]
 
 
+BARRIER_VALUES = [0.0, 5.0, 7.0, 9.0]      # never used for a free cell
+FREE_VALUES = [1.0, 1.0, 2.0, 3.0, 4.0]
+
+
+def barrier_list(rng, allow_empty=True):
+    """barrier values exactly as a caller might list them: 0-4 values in ANY order (ascending, descending, shuffled),
+    sometimes with duplicates"""
+    u = rng.random()
+    if u < 0.08 and allow_empty:
+        return []
+    k = 1 if u < 0.3 else rng.choice([2, 2, 2, 3, 3, 4])
+    vals = rng.sample(BARRIER_VALUES, k)
+    order = rng.random()
+    if order < 0.3:
+        vals.sort()
+    elif order < 0.6:
+        vals.sort(reverse=True)
+    if rng.random() < 0.25:
+        vals.insert(rng.randrange(len(vals) + 1), rng.choice(vals))
+    return vals
+
+
 def decorate(rng, lay, integer=False):
-    """free cells get assorted values, blocked cells a barrier value or NaN (integer rasters: barrier values only)"""
-    barriers = [0.0] if rng.random() < 0.6 else [0.0, 7.0]
+    """free cells get assorted values, blocked cells one of the listed barrier values (each of them is used when there are
+    enough blocked cells) or NaN (integer rasters: barrier values only)"""
+    barriers = barrier_list(rng, allow_empty=not integer)
+    nblocked = sum(1 for row in lay for v in row if not v)
+    pool = list(dict.fromkeys(barriers))
+    rng.shuffle(pool)
     data = []
+    k = 0
     for row in lay:
         r = []
         for v in row:
             if v:
-                r.append(float(rng.choice([1, 1, 2, 3, 5])) if (integer or rng.random() < 0.9) else float('inf'))
+                r.append(rng.choice(FREE_VALUES) if (integer or rng.random() < 0.9) else float('inf'))
             else:
-                u = rng.random()
-                r.append(float('nan') if (u < 0.35 and not integer) else (barriers[-1] if u < 0.6 else 0.0))
+                if not barriers or (not integer and rng.random() < (0.25 if nblocked > 1 else 0.1)):
+                    r.append(float('nan'))
+                elif k < len(pool):
+                    r.append(pool[k])             # make sure every listed value occurs on the surface
+                else:
+                    r.append(rng.choice(barriers))
+                k += 1
         data.append(r)
     return data, barriers
 
@@ -646,7 +680,7 @@ def point_for(rng, coords, step, i, fam):
     return c + sgn * f * step
 
 
-def gen_api_case(rng, lay, conn=None, snap=None, unit=False, fam=None, dtype='float64'):
+def gen_api_case(rng, lay, conn=None, snap=None, unit=False, fam=None, dtype='float64', ends=None):
     h, w = len(lay), len(lay[0])
     data, barriers = decorate(rng, lay, integer=(dtype != 'float64'))
     if unit:
@@ -660,7 +694,9 @@ def gen_api_case(rng, lay, conn=None, snap=None, unit=False, fam=None, dtype='fl
     fam = fam or rng.choice(['centre', 'centre', 'off', 'late', 'between'])
     s = (rng.randrange(h), rng.randrange(w))
     g = (rng.randrange(h), rng.randrange(w))
-    if rng.random() < 0.7:
+    if ends is not None:
+        s, g = ends
+    elif rng.random() < 0.7:
         # prefer far apart crossable end points
         fr = [(y, x) for y in range(h) for x in range(w) if lay[y][x]]
         if len(fr) >= 2:
@@ -731,30 +767,63 @@ def flush_kernel(ctx, pending):
                           dict(fn='kernel', data=data, barriers=barriers, conn=conn, start=list(s), goal=list(g), model=mo[:300]))
 
 
+def snap_check(ctx, pf, lay, data, barriers, cells=None):
+    """_find_nearest_pixel on the given cells of one surface vs the nearest-crossable oracle"""
+    h, w = len(lay), len(lay[0])
+    arr = np.array(data, dtype='float64')
+    barr = np.array(barriers, dtype='float64')
+    free = [[bool(v) for v in row] for row in lay]
+    for (y, x) in (cells if cells is not None else [(y, x) for y in range(h) for x in range(w)]):
+        ctx.evaluations += 1
+        got = tuple(int(v) for v in pf._find_nearest_pixel(y, x, arr, barr))
+        want = snap_targets(free, h, w, (y, x))
+        g2 = None if got == (-1, -1) else got
+        if g2 not in want:
+            case = dict(fn='snap', data=data, barriers=barriers, cell=[y, x])
+            corner = (y, x) in ((0, 0), (0, w - 1), (h - 1, 0), (h - 1, w - 1)) and \
+                want == {(h - 1 - y, w - 1 - x)} and g2 is None and h <= 3 and w <= 3
+            ctx.violation('oracle', '_find_nearest_pixel(%d, %d) on %r returned %r, the nearest crossable cell is %r' % (
+                y, x, lay, got, sorted(want, key=str)), dict(case, got=list(got)),
+                key='snap-corner-to-corner' if corner else None)
+
+
 def exhaustive_snap(ctx, pf, shapes):
-    """_find_nearest_pixel on every layout x cell vs the exact model (costs a,b,n printed by op exact are not needed:
-    the snapped cell is observed through the api op with goal = start) and the nearest-crossable oracle"""
+    """_find_nearest_pixel on every layout x cell vs the nearest-crossable oracle (the model's snapping is compared
+    through the api stream)"""
     rng = ctx.rng
     for (h, w) in shapes:
         for lay in layouts(h, w):
             data, barriers = decorate(rng, lay)
-            arr = np.array(data, dtype='float64')
-            barr = np.array(barriers)
-            free = [[bool(v) for v in row] for row in lay]
             ctx.count('snap/%dx%d' % (h, w), h * w)
-            for y in range(h):
-                for x in range(w):
-                    ctx.evaluations += 1
-                    got = tuple(int(v) for v in pf._find_nearest_pixel(y, x, arr, barr))
-                    want = snap_targets(free, h, w, (y, x))
-                    g2 = None if got == (-1, -1) else got
-                    if g2 not in want:
-                        case = dict(fn='snap', data=data, barriers=barriers, cell=[y, x])
-                        corner = (y, x) in ((0, 0), (0, w - 1), (h - 1, 0), (h - 1, w - 1)) and \
-                            want == {(h - 1 - y, w - 1 - x)} and g2 is None
-                        ctx.violation('oracle', '_find_nearest_pixel(%d, %d) on %r returned %r, the nearest crossable cell is %r' % (
-                            y, x, lay, got, sorted(want, key=str)), dict(case, got=list(got)),
-                            key='snap-corner-to-corner' if corner else None)
+            snap_check(ctx, pf, lay, data, barriers)
+
+
+def far_islands(ctx, pf):
+    """snapping over a long distance: a nodata/barrier raster of 4x4 ... 6x6 whose only crossable cells are a small island in one
+    corner, the end point to snap in (or next to) the opposite corner — the island is at pixel distance >= max(h, w)"""
+    rng = ctx.rng
+    cases = []
+    for (h, w) in [(4, 4), (4, 5), (5, 4), (5, 5), (5, 6), (6, 5), (6, 6), (4, 6), (6, 4)]:
+        for (cy, cx) in [(0, 0), (0, w - 1), (h - 1, 0), (h - 1, w - 1)]:
+            iy, ix = h - 1 - cy, w - 1 - cx                    # the island's corner
+            dy, dx = (1 if iy == 0 else -1), (1 if ix == 0 else -1)
+            for island in ([(iy, ix)], [(iy, ix), (iy + dy, ix)], [(iy, ix), (iy, ix + dx)],
+                           [(iy, ix), (iy + dy, ix), (iy, ix + dx)]):
+                lay = [[0.0] * w for _ in range(h)]
+                for (y, x) in island:
+                    lay[y][x] = 1.0
+                data, barriers = decorate(rng, lay)
+                ey, ex = (1 if cy == 0 else -1), (1 if cx == 0 else -1)
+                ends = [(cy, cx), (cy + ey, cx), (cy, cx + ex)]
+                ctx.count('snap-far/%dx%d' % (h, w), len(ends))
+                snap_check(ctx, pf, lay, data, barriers, ends)
+                e = ends[0] if len(island) > 1 else rng.choice(ends)
+                for k, snap in enumerate([(True, False), (False, True), (True, True)]):
+                    on = island[-1]
+                    se = (e, on) if snap == (True, False) else ((on, e) if snap == (False, True) else (e, rng.choice(ends)))
+                    c = gen_api_case(rng, lay, snap=snap, unit=(k != 1), fam='centre' if k != 1 else None, ends=se)
+                    cases.append(c)
+    api_batch(ctx, cases, 'api-snap-far')
 
 
 def api_batch(ctx, cases, label):
@@ -962,9 +1031,10 @@ def run(ctx):
         kshapes = [(h, w) for h in (1, 2, 3) for w in (1, 2, 3, 4)] + [(4, 1), (4, 2), (4, 3)]
     exhaustive_kernel(ctx, pf, kshapes)
     exhaustive_snap(ctx, pf, kshapes)
+    far_islands(ctx, pf)
     # ---- public API on sampled small layouts (unit + fractional coordinates), snap on/off -------------
     cases = []
-    n_small = 2000 if quick else 16000
+    n_small = 1600 if quick else 16000
     for i in range(n_small):
         h, w = rng.choice([(2, 2), (2, 3), (3, 2), (3, 3), (3, 3), (1, 3), (3, 1), (3, 4), (4, 3)])
         lay = [[1.0 if rng.random() < 0.6 else 0.0 for _ in range(w)] for _ in range(h)]
@@ -982,7 +1052,7 @@ def run(ctx):
     api_batch(ctx, cases, 'api-small')
     # ---- mazes with forced detours ---------------------------------------------------------------------
     cases = []
-    n_maze = 2000 if quick else 12000
+    n_maze = 1400 if quick else 12000
     for i in range(n_maze):
         h, w = rng.randint(3, 9), rng.randint(3, 9)
         if i % 3 == 0:
